@@ -531,8 +531,15 @@ def resumesSkeleton (r : Nat) (a : Att) (as : List Att) (final : List TEv) : Tra
 
 /-- a whole world in the shape of `C15_resumes` (at least one non-final attempt; the last connection carries legal traffic
     and is closed by the server): its skeleton; `none` when the world has another shape -/
+def attsOf : List Dial → Option (List Att)
+  | [] => some []
+  | d :: ds =>
+    match attOf d, attsOf ds with
+    | some a, some as => some (a :: as)
+    | _, _ => none
+
 def resumesOfWorld (r : Nat) (w : List Dial) : Option Trace :=
-  match w.getLast?, w.dropLast.mapM attOf with
+  match w.getLast?, attsOf w.dropLast with
   | some (.established final), some (a :: as) =>
     match final.getLast? with
     | some te =>
@@ -541,5 +548,108 @@ def resumesOfWorld (r : Nat) (w : List Dial) : Option Trace :=
        | _ => none)
     | none => none
   | _, _ => none
+
+/-! ### what `resumesOfWorld` recognises is exactly a world in the shape of `C15_resumes` -/
+
+theorem dropLast_append_of_getLast? {α : Type} (l : List α) (x : α) (h : l.getLast? = some x) : l = l.dropLast ++ [x] := by
+  induction l with
+  | nil => simp at h
+  | cons a t ih =>
+    cases t with
+    | nil => simp at h; simp [h]
+    | cons b t' =>
+      have : (b :: t').getLast? = some x := by simpa [List.getLast?_cons_cons] using h
+      have := ih this
+      simp only [List.dropLast_cons₂, List.cons_append]
+      rw [← this]
+
+theorem attOf_sound (d : Dial) (a : Att) (h : attOf d = some a) : a.Ok ∧ a.toDial = d := by
+  cases d with
+  | refused => simp [attOf] at h; subst h; simp [Att.Ok, Att.toDial, isFail]
+  | rejected st => simp [attOf] at h; subst h; simp [Att.Ok, Att.toDial, isFail]
+  | established evs =>
+    simp only [attOf] at h
+    cases hl : evs.getLast? with
+    | none => simp [hl] at h
+    | some te =>
+      simp only [hl] at h
+      by_cases hc : (isLoss te.ev && evs.dropLast.all (fun e => isLegal e.ev)) = true
+      · simp only [hc, ↓reduceIte, Option.some.injEq] at h
+        subst h
+        simp only [Bool.and_eq_true, List.all_eq_true] at hc
+        refine ⟨⟨hc.2, hc.1⟩, ?_⟩
+        simp only [Att.toDial]
+        rw [← dropLast_append_of_getLast? evs te hl]
+      · simp [hc] at h
+
+theorem attsOf_sound : ∀ (ds : List Dial) (as : List Att), attsOf ds = some as →
+    (∀ x ∈ as, x.Ok) ∧ as.map Att.toDial = ds := by
+  intro ds
+  induction ds with
+  | nil => intro as h; simp [attsOf] at h; subst h; simp
+  | cons d l ih =>
+    intro as h
+    simp only [attsOf] at h
+    cases h1 : attOf d with
+    | none => simp [h1] at h
+    | some a =>
+      cases h2 : attsOf l with
+      | none => simp [h1, h2] at h
+      | some as' =>
+        simp only [h1, h2, Option.some.injEq] at h
+        subst h
+        obtain ⟨o1, o2⟩ := attOf_sound d a h1
+        obtain ⟨i1, i2⟩ := ih as' h2
+        refine ⟨?_, by simp [o2, i2]⟩
+        intro x hx
+        rcases List.mem_cons.mp hx with rfl | hx
+        · exact o1
+        · exact i1 x hx
+
+/-- **resumesOfWorld_sound** — whenever the driver op answers with a skeleton (not `n/a`), the world IS one of the worlds
+    `C15c.C15_resumes` quantifies over, and the answer is the theorem's closed form for it. -/
+theorem resumesOfWorld_sound (r : Nat) (w : List Dial) (tr : Trace) (h : resumesOfWorld r w = some tr) :
+    ∃ a as legal te body, w = (a :: as).map Att.toDial ++ [.established (legal ++ [te])] ∧ (∀ x ∈ a :: as, x.Ok) ∧
+      (∀ e ∈ legal, isLegal e.ev = true) ∧ te.ev = .close body ∧ tr = resumesSkeleton r a as (legal ++ [te]) := by
+  unfold resumesOfWorld at h
+  cases hl : w.getLast? with
+  | none => simp [hl] at h
+  | some d =>
+    cases d with
+    | refused => simp [hl] at h
+    | rejected st => simp [hl] at h
+    | established final =>
+      cases ha : attsOf w.dropLast with
+      | none => simp [hl, ha] at h
+      | some atts =>
+        cases atts with
+        | nil => simp [hl, ha] at h
+        | cons a as =>
+          simp only [hl, ha] at h
+          cases hf : final.getLast? with
+          | none => simp [hf] at h
+          | some te =>
+            simp only [hf] at h
+            cases hk : te.ev with
+            | close body =>
+              simp only [hk] at h
+              by_cases hc : (final.dropLast.all fun e => isLegal e.ev) = true
+              · simp only [hc, ↓reduceIte, Option.some.injEq] at h
+                obtain ⟨o1, o2⟩ := attsOf_sound w.dropLast (a :: as) ha
+                have hw := dropLast_append_of_getLast? w _ hl
+                have hfin := dropLast_append_of_getLast? final te hf
+                refine ⟨a, as, final.dropLast, te, body, ?_, o1, ?_, hk, ?_⟩
+                · rw [o2, ← hfin]; exact hw
+                · simpa [List.all_eq_true] using hc
+                · rw [← hfin]; exact h.symm
+              · simp [hc] at h
+            | message op p f => simp [hk] at h
+            | ping p => simp [hk] at h
+            | pong p => simp [hk] at h
+            | eof => simp [hk] at h
+            | reset => simp [hk] at h
+            | protoError => simp [hk] at h
+            | payloadError => simp [hk] at h
+            | part => simp [hk] at h
 
 end WS.Lemmas.App
